@@ -297,3 +297,113 @@ func clipStr(s string, n int) string {
 	}
 	return s
 }
+
+// runStalledSwitch: the follower's connection to its old leader is stalled
+// (the reply to its stream request is held back) while it is pointed at a new
+// leader whose stream is stalled too. Releasing the OLD leader's reply must
+// not make the follower report caught up: it has nothing of the new leader yet.
+func runStalledSwitch(ctx *core.Ctx, bin string) {
+	var servers []*srv.Server
+	defer func() {
+		for _, s := range servers {
+			s.Kill9()
+		}
+	}()
+	start := func() *srv.Server {
+		s, err := srv.Start(srv.Opts{Bin: bin})
+		if err != nil {
+			return nil
+		}
+		servers = append(servers, s)
+		return s
+	}
+	a, b, f := start(), start(), start()
+	if a == nil || b == nil || f == nil {
+		ctx.Inconclusive("stalled-switch: server start")
+		return
+	}
+	ca, e1 := dial(a)
+	cb, e2 := dial(b)
+	fc, e3 := dial(f)
+	if e1 != nil || e2 != nil || e3 != nil {
+		ctx.Inconclusive("stalled-switch: dial")
+		return
+	}
+	defer ca.Close()
+	defer cb.Close()
+	defer fc.Close()
+	for i := 0; i < 5; i++ {
+		ca.Do("SET", "fromA", "a"+strconv.Itoa(i), "POINT", "1", strconv.Itoa(i))
+	}
+	for i := 0; i < 7; i++ {
+		cb.Do("SET", "fromB", "b"+strconv.Itoa(i), "POINT", "2", strconv.Itoa(i))
+	}
+	time.Sleep(1100 * time.Millisecond)
+	pa, err := proxy.Start(a.Addr())
+	if err != nil {
+		ctx.Inconclusive("stalled-switch: " + err.Error())
+		return
+	}
+	defer pa.Close()
+	pb, err := proxy.Start(b.Addr())
+	if err != nil {
+		ctx.Inconclusive("stalled-switch: " + err.Error())
+		return
+	}
+	defer pb.Close()
+	if r, err := fc.Do("FOLLOW", "127.0.0.1", strconv.Itoa(pa.Port())); err != nil || r.IsErr() {
+		ctx.Inconclusive("stalled-switch: FOLLOW failed")
+		return
+	}
+	if ok, why := quiescentCopy(a, f, 20*time.Second); !ok {
+		ctx.Inconclusive("stalled-switch: first synchronisation: " + why)
+		return
+	}
+	// stall the old leader's side: the follower reconnects and its requests get no answers
+	// (a replication step opens its main connection, then one more for the log comparison: the
+	// reconnect's main connection passes, the comparison stalls)
+	pa.PauseOnRequest("$3\r\naof\r\n") // the old leader's answer to the next stream request is held back
+	pa.DropAll()
+	time.Sleep(1800 * time.Millisecond) // the follower's retry is inside its stalled step
+	pb.PauseFromAccept(2) // the FOLLOW command's own look at the new leader passes, the stream connections stall
+	if r, err := fc.Do("FOLLOW", "127.0.0.1", strconv.Itoa(pb.Port())); err != nil || r.IsErr() {
+		// FOLLOW checks the new leader first; with the stream stalled it may be refused: no verdict
+		ctx.Count("stalled_switch_follow_refused", 1)
+		return
+	}
+	time.Sleep(300 * time.Millisecond)
+	pa.Resume() // the old leader's held-back answers arrive now
+	bad := ""
+	for dl := time.Now().Add(3 * time.Second); time.Now().Before(dl); time.Sleep(50 * time.Millisecond) {
+		c, err := respc.Dial(f.Addr(), time.Second)
+		if err != nil {
+			continue
+		}
+		c.Timeout = 2 * time.Second
+		hz, err1 := c.Do("HEALTHZ")
+		ks, err2 := c.Do("KEYS", "*")
+		c.Close()
+		if err1 == nil && err2 == nil && hz.String() == "+OK" {
+			has := false
+			for _, e := range ks.Arr {
+				if e.Str == "fromB" {
+					has = true
+				}
+			}
+			if !has {
+				bad = fmt.Sprintf("HEALTHZ +OK while KEYS * = %s (the new leader holds fromB with 7 objects and its stream is still held back)", ks.String())
+				break
+			}
+		}
+	}
+	ctx.Eval(1)
+	ctx.Distinct("stalled-switch")
+	pb.Resume()
+	if bad != "" {
+		ctx.Violation("caught-up-early:stalled-switch", "a follower was pointed from leader A (connection stalled) to leader B (stream stalled); when A's held-back answers were released it reported healthy without anything of B: "+bad, map[string]any{"scenario": "stalled-switch"})
+		return
+	}
+	if ok, why := quiescentCopy(b, f, 25*time.Second); !ok {
+		ctx.Violation("switch-leader-diff", "after the stalled switch the follower does not become a healthy copy of its new leader: "+why, map[string]any{"scenario": "stalled-switch"})
+	}
+}
